@@ -266,7 +266,7 @@ def open_request(cfg, data, engine_id=None, strict=True, check_mac=True):
     return r
 
 
-def seal_reply(cfg, msg_id, engine_id, boots, time, scoped, flags=None, salt=None, user=None, auth=True, reportable=False, partial_tail=0):
+def seal_reply(cfg, msg_id, engine_id, boots, time, scoped, flags=None, salt=None, user=None, auth=True, reportable=False, partial_tail=0, pad=None):
     """Build an agent->client v3 message carrying `scoped` (an encoded scopedPDU),
     protected according to cfg (or to explicit flags)."""
     if flags is None:
@@ -279,6 +279,15 @@ def seal_reply(cfg, msg_id, engine_id, boots, time, scoped, flags=None, salt=Non
     if flags & 2:
         salt = salt if salt is not None else b"\x00\x00\x00\x01agnt"[:8]
         kul = cfg.priv_kul(engine_id)
+        if pad is not None:
+            # the agent pads the plaintext itself to a whole number of blocks (pad = ("size"|"zero"|"ff", always_a_block))
+            how, full = pad
+            block = 8 if cfg.priv == refcrypto.DES else 16
+            k = (-len(scoped)) % block
+            if k == 0 and full:
+                k = block
+            fill = {"size": bytes([k]) * k, "zero": bytes(k), "ff": b"\xff" * k}[how]
+            scoped = scoped + fill
         if partial_tail:
             # only the whole blocks are encrypted; `partial_tail` octets that belong to no block follow
             whole = len(scoped) - len(scoped) % 8
